@@ -124,6 +124,54 @@ func initNatives() {
 	}
 	natives["strings.HasPrefix"] = hasPrefixSuffix(false)
 	natives["strings.HasSuffix"] = hasPrefixSuffix(true)
+	initLockNatives()
+	// walk.Descriptors(file, fn): calls fn synchronously on this goroutine, zero or more times,
+	// and returns the first non-nil error of fn (or nil). Nothing else is modified.
+	natives["github.com/bufbuild/protocompile/walk.Descriptors"] = &native{
+		doc:      "assumed: walk.Descriptors calls its callback synchronously on the calling goroutine (any number of times) and returns the first non-nil error the callback returned, or nil; it modifies nothing itself",
+		havocAll: false,
+		apply: func(fv *FuncVerifier, st *State, cc *ssa.CallCommon, args []Value, pos token.Pos) Value {
+			clo := args[1].Clo
+			sig := cc.Signature()
+			if clo == nil {
+				fv.enc.havocAllCalls["walk.Descriptors with unknown callback"] = true
+				st.havocAll()
+				return fv.freshResult(st, "walk", sig)
+			}
+			c := fv.db.Funcs[clo.Fn.String()]
+			if c == nil {
+				fv.enc.havocAllCalls["walk.Descriptors callback "+shortName(clo.Fn.String())+" without contract"] = true
+				st.havocAll()
+				return fv.freshResult(st, "walk", sig)
+			}
+			// the callback's parameter is an arbitrary descriptor
+			var pn []string
+			var cargs []Value
+			for _, p := range clo.Fn.Params {
+				pn = append(pn, p.Name())
+				v := st.freshValue(p.Name(), p.Type())
+				cargs = append(cargs, v)
+			}
+			// first call: precondition must hold now; later calls: it must be re-established by the
+			// callback itself (its postcondition is assumed after the havoc), checked on the
+			// callback's own contract: requires must follow from ensures + frame. We check the
+			// precondition before and after one abstract application.
+			// zero or more calls: check the precondition, havoc what the callback may modify (no
+			// postcondition is assumed: there may have been no call), then check that the
+			// precondition is stable under that havoc (so every later call is also fine)
+			fv.ccMode = ccHavocOnly
+			fv.applyContract(st, c, clo.Fn.String(), pn, cargs, clo.Fn.Signature, &calleeInfo{fn: clo.Fn, clo: clo}, pos)
+			var cargs2 []Value
+			for _, p := range clo.Fn.Params {
+				cargs2 = append(cargs2, st.freshValue(p.Name(), p.Type()))
+			}
+			fv.ccMode = ccPreOnly
+			fv.applyContract(st, c, clo.Fn.String(), pn, cargs2, clo.Fn.Signature, &calleeInfo{fn: clo.Fn, clo: clo}, pos)
+			fv.ccMode = ccNormal
+			res := fv.freshResult(st, "walk", sig)
+			return res
+		},
+	}
 }
 
 func isASCII(s string) bool {
